@@ -1,18 +1,19 @@
 #!/usr/bin/env python3
-"""keep a confirmed seeded change:  keep_seed.py <PROP> <worktree> <n> <needs> <caught-by> [alt-patch]"""
+"""keep a confirmed seeded change:  keep_seed.py <PROP> <worktree> <n> <needs> <caught-by> [alt-patch|-] [number under seeded/]"""
 import json, os, shutil, subprocess, sys
 prop, wt, n, needs, caught = sys.argv[1:6]
-alt = sys.argv[6] if len(sys.argv) > 6 else None
+alt = sys.argv[6] if len(sys.argv) > 6 and sys.argv[6] != "-" else None
+outn = sys.argv[7] if len(sys.argv) > 7 else n
 out = subprocess.run(['/verif/tools/confirm_seed.sh', wt, n], capture_output=True, text=True).stdout.strip().splitlines()[-1]
 conf = json.loads(out)
 ok = conf.get('demo_clean_exit') == 0 and conf.get('demo_mutated_exit') == 1 and conf.get('unexpected_test_failures') == 0
-d = f"/verif/seeded/{prop}-{n}"
+d = f"/verif/seeded/{prop}-{outn}"
 os.makedirs(d, exist_ok=True)
 shutil.copy(alt or f"{wt}/mutation{n}.diff", f"{d}/patch.diff")
 shutil.copy(f"{wt}/demo{n}.py", f"{d}/demo.py")
 notes = open(f"{wt}/NOTES.md").read() if os.path.exists(f"{wt}/NOTES.md") else ''
 json.dump({'property': prop, 'needs_to_manifest': needs, 'confirmed': ok, 'confirmation': conf,
            'ran': [f"tools/confirm_seed.sh {wt} {n}  (apply patch; baseline pytest; demo with and without the patch)",
-                   f"tools/seedtest.sh {prop} seeded/{prop}-{n}/patch.diff"],
+                   f"tools/seedtest.sh {prop} seeded/{prop}-{outn}/patch.diff"],
            'caught_by': caught, 'author_notes': notes[:3000]}, open(f"{d}/meta.json", 'w'), indent=1)
 print(d, 'confirmed' if ok else 'NOT CONFIRMED', conf)
